@@ -11,6 +11,10 @@ R-UNITSRC   read_context::build_die_parent_maps walks each section with its own 
             build_die_parent_relations_under(cu, source, ..) iterates units of the debug info its `source` stands for
             (dwarf() / alt_dwarf(); type-signature out-parameters and dwarf_offdie_types() for TYPE_UNIT only), and all
             three sources are walked.
+R-MEMBERTAG a data member of a class or union is a child DIE tagged DW_TAG_member - or, for a static member since DWARF 5,
+            DW_TAG_variable (DWARF <= 4 says DW_TAG_member + DW_AT_external).  In add_or_update_class_type and
+            add_or_update_union_type every boolean expression over the child's tag has the same value for the two tags:
+            what is recorded for a member cannot depend on the DWARF generation's choice of tag.
 R-TUSECTION wherever a unit is classified as TYPE_UNIT_DIE_SOURCE - the source whose offsets are resolved with
             dwarf_offdie_types(), i.e. in .debug_types - the DWARF version of the unit is consulted: since DWARF 5 a
             DW_TAG_type_unit lives in .debug_info.  (Today it is not: recorded finding, replayed.)
@@ -30,7 +34,7 @@ def run(ctx):
     ctx.clause = ("DIEs of the three debug-info sources (main .debug_info, alternate .debug_info, .debug_types) are kept in "
                   "separate tables, each section is walked under its own source tag, and a unit is only taken for a "
                   ".debug_types unit after its DWARF version was looked at")
-    ctx.rules = ["R-DIESRC", "R-UNITSRC", "R-TUSECTION"]
+    ctx.rules = ["R-DIESRC", "R-UNITSRC", "R-TUSECTION", "R-MEMBERTAG"]
     P = ctx.program(UNITS)
     consts = P.enum_consts(ENUM)
     if not all(c in consts for c in REAL):
@@ -38,6 +42,7 @@ def run(ctx):
     check_diesrc(ctx, P, consts)
     check_unitsrc(ctx, P)
     check_tusection(ctx, P)
+    check_membertag(ctx, P)
     ctx.assume("the contents of the DWARF (forms, attribute encodings of DWARF 4 vs 5, column information) are decoded by "
                "elfutils and interpreted at run time; only the per-source bookkeeping is decided")
 
@@ -174,3 +179,65 @@ def check_tusection(ctx, P):
                    "since DWARF 5 type units live in .debug_info: with -gdwarf-5 -fdebug-types-section the types defined in type units "
                    "are not found and the interfaces lose their parameters")
     ctx.floor("R-TUSECTION", "classification sites of type units", n, 1)
+
+
+
+# ------------------------------------------------------------------------------------------------ R-MEMBERTAG
+def check_membertag(ctx, P):
+    n = 0
+    for name in ("add_or_update_class_type", "add_or_update_union_type"):
+        fs = [f for f in P.all_funcs() if f.n == name and not f.dep and f.cfg() is not None and f.q.startswith("abigail::dwarf_reader")]
+        if len(fs) != 1:
+            raise AnalysisBroken("anchor vanished: dwarf_reader %s" % name)
+        f = fs[0]
+        ctx.analysed(f)
+        tagvars = {x.get("d") for x in f.nodes() if x["k"] == "VarDecl" and x.get("c") and x["c"][0] is not None and
+                   any(y["k"] == "CallExpr" and (f.decl(y) or {}).get("n") == "dwarf_tag" for y in walk(x["c"][0]))}
+        TAG = {}
+        for x in f.nodes():
+            if x["k"] == "DeclRefExpr" and (f.decl(x) or {}).get("n") in ("DW_TAG_member", "DW_TAG_variable") and x.get("v") is not None:
+                TAG[f.decl(x)["n"]] = x["v"]
+        if len(TAG) != 2 or not tagvars:
+            raise AnalysisBroken("anchor vanished: %s no longer tests the child's tag against DW_TAG_member and DW_TAG_variable" % name)
+        cmps = [x for x in f.nodes() if x["k"] == "BinaryOperator" and x.get("op") in ("==", "!=") and
+                any(y["k"] == "DeclRefExpr" and y.get("d") in tagvars for y in walk(x)) and
+                any(y["k"] == "DeclRefExpr" and (f.decl(y) or {}).get("n") in TAG for y in walk(x))]
+        # switch statements over the tag are covered through their case labels
+        roots = {}
+        for c in cmps:
+            r = c
+            p = f.parent(r)
+            while p is not None and (p["k"] in ("ParenExpr", "ImplicitCastExpr") or (p["k"] == "UnaryOperator" and p.get("op") == "!") or
+                                     (p["k"] == "BinaryOperator" and p.get("op") in ("&&", "||"))):
+                r = p
+                p = f.parent(r)
+            roots[r["i"]] = r
+        for rid, r in sorted(roots.items()):
+            vals = []
+            for t in ("DW_TAG_member", "DW_TAG_variable"):
+                def atom(e, t=t):
+                    if e["k"] == "DeclRefExpr" and e.get("d") in tagvars:
+                        return [TAG[t]]
+                    return None
+                vals.append(World(f, atom).ev(r))
+            n += 1
+            ok = vals[0] == vals[1]
+            k = sum(1 for o in ctx.obligations if o["rule"] == "R-MEMBERTAG" and o["entity"].startswith(name))
+            ctx.ob("R-MEMBERTAG", "%s: test #%d of the child's tag treats DW_TAG_member and DW_TAG_variable alike" % (name, k + 1), ok, f.loc(r),
+                   "`%s`" % expr_str(f, r)[:70] if ok else
+                   "`%s` differs between the two tags: a static data member is recorded differently for a DWARF 5 binary (DW_TAG_variable) "
+                   "and a DWARF 4 one (DW_TAG_member), and the two builds of one source no longer compare equal" % expr_str(f, r)[:70])
+        for sw in f.nodes():
+            if sw["k"] == "SwitchStmt" and sw.get("c") and sw["c"][0] is not None and any(
+                    y["k"] == "DeclRefExpr" and y.get("d") in tagvars for y in walk(sw["c"][0])):
+                labs = {}
+                for x in walk(sw):
+                    if x["k"] == "CaseStmt" and x.get("v") in TAG.values():
+                        labs[x["v"]] = x
+                if labs:
+                    n += 1
+                    same = len(labs) == 2 and any(a is labs[TAG["DW_TAG_variable"]] or a is labs[TAG["DW_TAG_member"]] for a in
+                                                  [labs[TAG["DW_TAG_member"]]["c"][-1], labs[TAG["DW_TAG_variable"]]["c"][-1]])
+                    ctx.ob("R-MEMBERTAG", "%s: the switch over the child's tag has one arm for both member tags" % name, same, f.loc(sw),
+                           "stacked case labels" if same else "DW_TAG_member and DW_TAG_variable are handled by different arms")
+    ctx.floor("R-MEMBERTAG", "tests of a member's tag in the class / union builders", n, 2)
